@@ -320,6 +320,7 @@ static void run_out(scpi_t * context, const vh_out_t * o) {
                 done += n;
             }
             if (done < o->len) { size_t n = o->len - done; void * c = malloc(n); memcpy(c, o->data + done, n); SCPI_ResultArbitraryBlockData(context, c, n); free(c); }
+            else if (o->len == 0 && o->announce_delta == 0) { void * c = malloc(1); SCPI_ResultArbitraryBlockData(context, c, 0); free(c); } /* an empty block is completed by an empty data call */
             break;
         }
         case VO_ARR_INT32: { size_t n = o->len / 4; void * c = malloc(o->len ? o->len : 1); if (o->len) memcpy(c, o->data, o->len); SCPI_ResultArrayInt32(context, (const int32_t *) c, n, (scpi_array_format_t) o->fmt); free(c); break; }
